@@ -19,17 +19,17 @@ import (
 // waits for the state the model predicts.
 
 type uiModel struct {
-	ed      oracle.Editor
-	cur     oracle.ListCursor
-	sel     oracle.Selection
-	lines   []string
-	args    []string // options that influence matching/ordering
-	results []int    // indices into lines for the current query
-	track   bool
-	maxItems int
+	ed         oracle.Editor
+	cur        oracle.ListCursor
+	sel        oracle.Selection
+	lines      []string
+	args       []string // options that influence matching/ordering
+	results    []int    // indices into lines for the current query
+	track      bool
+	maxItems   int
 	resultsFor map[string][]int
-	t       fataler
-	pending []func()
+	t          fataler
+	pending    []func()
 	lenientPos bool
 }
 
